@@ -7,6 +7,6 @@ CONSTANTS
   RecheckDropsSyntaxErrors = FALSE
   FormatNeedsErrsEntry = FALSE
   Strict = FALSE
-INVARIANTS NoPanic RequestsOK DiagEqFresh NothingForGone
+INVARIANTS NoPanic RequestsOK
 POSTCONDITION AllConsumed
 CHECK_DEADLOCK FALSE
